@@ -61,6 +61,9 @@ fn strat_plain(t: Tier) -> BoxedStrategy<Case> {
 fn strat_split(t: Tier) -> BoxedStrategy<Case> {
     mk(GenCfg::basic().secs(3).days(2, t.pick(12, 24)).splits(SplitMode::Terminating))
 }
+fn strat_same_day(t: Tier) -> BoxedStrategy<Case> {
+    mk(GenCfg::basic().secs(2).days(2, t.pick(10, 20)).splits(SplitMode::Terminating).events(true).same_day(true))
+}
 fn strat_events(t: Tier) -> BoxedStrategy<Case> {
     mk(GenCfg::basic().secs(2).days(2, t.pick(10, 20)).splits(SplitMode::Terminating).events(true).dividends(true))
 }
@@ -131,8 +134,21 @@ pub fn build_variant(c: &Case) -> Variant {
 }
 
 pub fn check(c: &Case, obs: &mut Obs) -> Verdict {
+    check_inner(c, obs, false)
+}
+
+/// same relation on ledgers that put a SPLIT/UNSPLIT/CAPRETURN/ACCUMULATION on a date that also
+/// has trades of the security: whatever such a placement means, it must not depend on line order
+pub fn check_same_day(c: &Case, obs: &mut Obs) -> Verdict {
+    let v = check_inner(c, obs, true);
+    obs.class_if(lgen::has_excluded_placement(&c.base.ledger), "split_or_event_on_a_trade_day");
+    obs.nontrivial = obs.nontrivial && lgen::has_excluded_placement(&c.base.ledger);
+    v
+}
+
+fn check_inner(c: &Case, obs: &mut Obs, allow_same_day: bool) -> Verdict {
     let base = &c.base.ledger;
-    if lgen::has_excluded_placement(base) {
+    if !allow_same_day && lgen::has_excluded_placement(base) {
         obs.excluded += 1;
         return Verdict::Pass;
     }
@@ -252,12 +268,16 @@ fn run(ctx: &Ctx) {
     if !ctx.run_prop("with_asset_events", RULE, ctx.cases(800, 80_000), strat_events, check) {
         return;
     }
+    if !ctx.run_prop("same_day_split_or_event", RULE, ctx.cases(800, 80_000), strat_same_day, check_same_day) {
+        return;
+    }
     crate::props::proc_checks::c06_cli(ctx);
 }
 
 fn replay(name: &str, case: &Value) -> Option<Verdict> {
     match name {
         "plain" | "with_splits" | "with_asset_events" => Some(replay_case::<Case, _>(case, check).unwrap_or_else(Verdict::Fail)),
+        "same_day_split_or_event" => Some(replay_case::<Case, _>(case, check_same_day).unwrap_or_else(Verdict::Fail)),
         other => crate::props::proc_checks::replay(other, case),
     }
 }
